@@ -3,4 +3,4 @@ From Coq Require Import Extraction ExtrOcamlBasic NArith ZArith.
 From V Require Import C05.Model.
 Extraction "c05_model.ml" run exec_crash exec_fault crash_disk batch_counts ops_env ops_fresh cont
   consistent windows_ok recover_ready index_covers mem_covers stores rf_equiv rf_superset reinit
-  disk0 rf0 all_fams floor N.of_nat Z.of_N.
+  disk0 rf0 all_fams floor snap_discipline snap_pending N.of_nat Z.of_N.
